@@ -545,6 +545,13 @@ def correspondence(drv, rng, stats, n_cases):
         stats["corr_dsis_neg"] += 1
         if parse_si_list(out[1]) != real:
             return {"op": "dsis_neg", "a": [keystr(k) for k in ks], "model": out[1], "real": sorted(keystr(k) for k in real)}
+        out = drv.ask(["dsis_not", [si_sx(k) for k in ks]])
+        if out[0] != "ok":
+            return {"op": "dsis_not", "a": [keystr(k) for k in ks], "model": out}
+        real = real_keys(E.D(bits=w, si_set={m.bitwise_not() for m in d._si_set}))
+        stats["corr_dsis_not"] += 1
+        if parse_si_list(out[1]) != real:
+            return {"op": "dsis_not", "a": [keystr(k) for k in ks], "model": out[1], "real": sorted(keystr(k) for k in real)}
         # value sets
         assign = [rand_key(rng, w) if rng.random() < 0.7 else None for _ in REGIONS]
         if all(k is None for k in assign):
@@ -753,7 +760,7 @@ def main(tier, seed, replay=None):
         print("note: model/implementation mismatch as well: %s" % json.dumps(mismatch, default=str)[:400])
     rep.cov["trusted_base"] = KERNEL_TB + [
         "Print Assumptions of Props/C23.v theorems: Closed under the global context",
-        "extraction (ExtrOcamlBasic only) of dsis_add/dsis_sub/dsis_neg/vs_add/vs_sub/vunion_trace; ocaml/sidriver.ml",
+        "extraction (ExtrOcamlBasic only) of dsis_add/dsis_sub/dsis_neg/dsis_not/vs_add/vs_sub/vunion_trace; ocaml/sidriver.ml",
         "Model/Lift.v is hand-written; the interval join, cardinality and the transfer functions other than add/sub/neg are "
         "parameters of the theorems (their soundness is C21/C22's subject); comparisons, intersection, widen, extract, concat of "
         "sets/value sets are covered by the search only",
